@@ -11,3 +11,4 @@ import Gomjml.Props.C04
 #print axioms Gomjml.Props.C04.C04_inline_value_counterexample
 #print axioms Gomjml.Props.C04.C04_text_keeps_ink
 #print axioms Gomjml.Props.C04.C04_text_whitespace
+#print axioms Gomjml.Props.C04.C04_void_normaliser_keeps_text
